@@ -97,7 +97,7 @@ def write_table(table, path):
 
 # ----------------------------------------------------------------------------- replay with crash sites
 
-def replay_robust(cases, work, name, env_extra=None, timeout_ms=4000, per_proc=PER_PROC, as_limit=AS_LIMIT):
+def replay_robust(cases, work, name, env_extra=None, timeout_ms=3000, per_proc=PER_PROC, as_limit=AS_LIMIT):
     """vlib.replay through the `robust` binary, in batches so that no process sees more than `per_proc`
     cases; joins the panic sites recorded by the binary into the verdicts of crashed processes."""
     out = []
@@ -225,6 +225,16 @@ def stage_case(c, proto, fresh=False):
             "steps": steps, "st": c["st"]}
 
 
+def reenter_case(c, proto):
+    setup = proto["setupA"] + str(c["d"]) + proto["setupB"] + proto["stagesetup"]
+    steps = [{"src": setup, "class": "ok"},
+             {"src": c["capture"], "class": "ok", "emit": c["capemits"]},
+             {"src": c["src"], "class": c["out"], "emit": c["emits"]},
+             {"src": c["reenter"], "class": "noncrash"},
+             {"src": proto["after"], "class": "ok", "emit": c["after"]}]
+    return {"id": f"k-reenter-{c['stage']}", "fresh": True, "tag": f"reenter|{c['stage']}", "steps": steps, "st": "run"}
+
+
 def repeat_case(c, proto, n):
     setup = proto["setupA"] + str(c["d"]) + proto["setupB"] + proto["stagesetup"]
     steps = [{"src": setup, "class": "ok"}]
@@ -248,6 +258,11 @@ def inter_case(c, proto, i):
 
 def deep_case(c, proto):
     setup = proto["setupA"] + str(c["d"]) + proto["setupB"]
+    if c["k"] == "units":
+        steps = [{"src": setup, "class": "ok"}] + [{"src": c["src"], "class": "ok"}] * c["n"]
+        steps.append({"src": proto["probe"], "class": "ok", "emit": c["probe"]})
+        return {"id": f"d-many-units-{c['n']}", "fresh": True, "tag": f"deep|many-units|{c['n']}", "steps": steps,
+                "depth": c["n"], "huge": False}
     if c["shape"] == "text":
         # the only thing the driver adds to the spec's description: the repetition
         text = c["pre"] + c["a"] * c["depth"] + c["mid"] + c["b"] * c["depth"] + c["post"]
@@ -323,19 +338,19 @@ def part_stages(r, work, table_path, quick, rnd, seed):
     r.notes.append("deny list (Robust.tla Deny): " + "; ".join(f"{d['name']} ({d['why']})" for d in proto["deny"]))
     selftest(work, table_path, proto)
     srecs = [c for c in res["cases"] if c["k"] == "stage"]
-    scases = [stage_case(c, proto) for c in srecs]
+    scases = [stage_case(c, proto) for c in srecs] + [reenter_case(c, proto) for c in res["cases"] if c["k"] == "reenter"]
     for env, nm in ((None, "c07s"), (nojit, "c07sn")):
         cs = [dict(c, id=c["id"] + ("-nojit" if env else ""), tag=c["tag"] + ("|nojit" if env else "")) for c in scases]
         account(r, cs, replay_robust(cs, work, nm, env_extra=env, timeout_ms=10000), "stages")
     # residue: every run-time failing unit repeated on one engine, depth probe after each
     rep = sorted((c for c in srecs if c["st"] == "run" and c["stage"] != "rt-assert"), key=lambda c: (c["ctx"], c["stage"]))
     if quick:
-        rep = rnd.sample(rep, 36)
-    rcases = [repeat_case(c, proto, 200) for c in rep]
+        rep = rnd.sample(rep, 24)
+    rcases = [repeat_case(c, proto, 100 if quick else 200) for c in rep]
     account(r, rcases, replay_robust(rcases, work, "c07r", timeout_ms=30000), "repeat")
     # histories
     sim = tlc("MC_Robust_inter.cfg", work, table_path, workers=1, timeout=300,
-              simulate=f"num={60 if quick else 1000}", seed=seed)
+              simulate=f"num={40 if quick else 1000}", seed=seed)
     proto_i = next(c for c in sim["cases"] if c["k"] == "proto")
     icases, seen = [], set()
     for i, c in enumerate(c for c in sim["cases"] if c["k"] == "inter"):
@@ -354,7 +369,7 @@ def part_deep(r, work, table_path, quick):
     res = tlc("MC_Robust_deep_quick.cfg" if quick else "MC_Robust_deep_thorough.cfg", work, table_path, workers=2, timeout=300)
     r.add_tlc(res)
     proto_d = next(c for c in res["cases"] if c["k"] == "proto")
-    dcases = [deep_case(c, proto_d) for c in res["cases"] if c["k"] == "deep"]
+    dcases = [deep_case(c, proto_d) for c in res["cases"] if c["k"] in ("deep", "units")]
     dcases.sort(key=lambda c: (-c["depth"], c["id"]))       # the slow ones first
     for env, nm in ((None, "c07d"), (nojit, "c07dn")):
         # parsing / expansion / compilation do not depend on the JIT: the quick tier runs only the
@@ -396,7 +411,7 @@ def part_matrix(r, work, table, table_path, quick, rnd):
     account(r, c2, replay_robust(c2, work, "c07m2"), "matrix round 2")
     # JIT off: a seeded sample of both rounds
     pool = c1 + c2
-    sample = rnd.sample(pool, min(len(pool), 12000 if quick else 150000))
+    sample = rnd.sample(pool, min(len(pool), 8000 if quick else 40000))
     sample.sort(key=lambda c: c["id"])
     cs = [dict(c, id=c["id"] + "-nojit", tag=c["tag"] + "|nojit") for c in sample]
     account(r, cs, replay_robust(cs, work, "c07mn", env_extra=nojit), "matrix, JIT off")
